@@ -6,7 +6,7 @@ OUT=/verif/mutants/$ID/RESULTS.txt
 : > $OUT
 for p in /verif/mutants/$ID/*.diff; do
   b=$(basename $p)
-  case $b in FIX-*|EQUIVALENT-*) continue;; esac
+  case $b in FIX-*|FIX_*|ALL-FIXES*|EQUIVALENT-*) continue;; esac
   t0=$(date +%s)
   # patches named *FIX+* were written against the tree before the corresponding fix: commit: undo the fix first
   pp=$p
